@@ -18,6 +18,15 @@ package cl
 // target of a mutating math/big method.
 //@ every-function cl operands-kept
 
+// quotient / remainder specifications of the four rounding divisions
+//@ define divides(n, d, q, r) = n == q * d + r && abs(r) < abs(d)
+//@ define floor_spec(n, d, q, r) = divides(n, d, q, r) && (r == 0 || ((r < 0) <==> (d < 0)))
+//@ define ceiling_spec(n, d, q, r) = divides(n, d, q, r) && (r == 0 || ((r < 0) <==> !(d < 0)))
+//@ define truncate_spec(n, d, q, r) = divides(n, d, q, r) && (r == 0 || ((r < 0) <==> (n < 0)))
+//@ define small(x) = abs(x) < 4611686018427387904
+//@ define fixpair(a, b) = is(a, slip.Fixnum) && is(b, slip.Fixnum) && small(as(a, slip.Fixnum)) && small(as(b, slip.Fixnum)) && as(b, slip.Fixnum) != 0
+//@ define bigpair(a, b) = is(a, ptr(slip.Bignum)) && is(b, ptr(slip.Bignum))
+
 //@ func cl.addNumbers
 //@   property C05
 //@   exact
@@ -38,14 +47,20 @@ package cl
 //@   property C05
 //@   exact
 //@   operands-kept
+//@   ensures fixnum-floor: fixpair(num, div) ==> (is(q, slip.Fixnum) && is(r, slip.Fixnum) && floor_spec(as(num, slip.Fixnum), as(div, slip.Fixnum), as(q, slip.Fixnum), as(r, slip.Fixnum)))
+//@   ensures bignum-floor: (bigpair(num, div) && bigpair(q, r)) ==> floor_spec(bigval(num), bigval(div), bigval(q), bigval(r))
 //@ func cl.ceiling
 //@   property C05
 //@   exact
 //@   operands-kept
+//@   ensures fixnum-ceiling: fixpair(num, div) ==> (is(q, slip.Fixnum) && is(r, slip.Fixnum) && ceiling_spec(as(num, slip.Fixnum), as(div, slip.Fixnum), as(q, slip.Fixnum), as(r, slip.Fixnum)))
+//@   ensures bignum-ceiling: (bigpair(num, div) && bigpair(q, r)) ==> ceiling_spec(bigval(num), bigval(div), bigval(q), bigval(r))
 //@ func cl.truncate
 //@   property C05
 //@   exact
 //@   operands-kept
+//@   ensures fixnum-truncate: fixpair(num, div) ==> (is(q, slip.Fixnum) && is(r, slip.Fixnum) && truncate_spec(as(num, slip.Fixnum), as(div, slip.Fixnum), as(q, slip.Fixnum), as(r, slip.Fixnum)))
+//@   ensures bignum-truncate: (bigpair(num, div) && bigpair(q, r)) ==> truncate_spec(bigval(num), bigval(div), bigval(q), bigval(r))
 //@ func cl.round
 //@   property C05
 //@   exact
